@@ -84,6 +84,10 @@ pub fn err_str(e: &Error) -> String {
 /// `caps`: whether capacities are rendered (content comparison ignores them).
 pub trait Walk {
     fn walk(&self, out: &mut String, caps: bool);
+    /// addresses of the top-level fields (of the active variant) relative to `base`; generated `#[flat]` items override this
+    fn field_offsets(&self, _base: usize) -> Option<Vec<usize>> {
+        None
+    }
 }
 pub fn walk_str<T: Walk + ?Sized>(x: &T, caps: bool) -> String {
     let mut s = String::new();
@@ -295,6 +299,8 @@ impl<T: DynTarget + ?Sized, L: Flat + Length> DynTarget for FlexVec<T, L> {
 pub struct Probe {
     /// `Ok` → (as_bytes len, size_of_val, size(), walk with capacities, walk without)
     pub res: Result<(usize, usize, usize, String, String), Error>,
+    /// offsets of the top-level fields as the compiler placed them
+    pub offsets: Option<Vec<usize>>,
     /// start/end of the returned reference's bytes relative to the slice start (must be inside)
     pub range_ok: bool,
 }
@@ -336,7 +342,7 @@ fn probe_of<T: Flat + Walk + ?Sized>(v: &T, bytes: &[u8]) -> Probe {
     let base = bytes.as_ptr() as usize;
     let range_ok = start == base && ab.len() <= bytes.len() && sov <= bytes.len();
     let z = v.size();
-    Probe { res: Ok((ab.len(), sov, z, walk_str(v, true), walk_str(v, false))), range_ok }
+    Probe { res: Ok((ab.len(), sov, z, walk_str(v, true), walk_str(v, false))), range_ok, offsets: v.field_offsets(base) }
 }
 impl<T: Flat + Walk + DynTarget + Editable + ?Sized> TypeOps for Ops<T> {
     fn name(&self) -> &'static str {
@@ -363,14 +369,14 @@ impl<T: Flat + Walk + DynTarget + Editable + ?Sized> TypeOps for Ops<T> {
     fn probe(&self, bytes: &[u8]) -> Probe {
         match T::from_bytes(bytes) {
             Ok(v) => probe_of(v, bytes),
-            Err(e) => Probe { res: Err(e), range_ok: true },
+            Err(e) => Probe { res: Err(e), range_ok: true, offsets: None },
         }
     }
     fn probe_mut(&self, bytes: &mut [u8]) -> Probe {
         let copy: *const [u8] = bytes;
         match T::from_mut_bytes(bytes) {
             Ok(v) => probe_of(&*v, unsafe { &*copy }),
-            Err(e) => Probe { res: Err(e), range_ok: true },
+            Err(e) => Probe { res: Err(e), range_ok: true, offsets: None },
         }
     }
     fn new_in_place(&self, bytes: &mut [u8], d: &D) -> Result<(), Error> {
